@@ -1,5 +1,5 @@
 SPECIFICATION SpecRestartBeforeJoin
-INVARIANT AtMostOneLive SenderIsNewest InOrderOnce NeverDropped WaitingIsServed AnsweredWasHandled NoLoss
+INVARIANT AtMostOneLive SenderIsNewest InOrderOnce NeverDropped WaitingIsServed AnsweredWasHandled NoLoss NothingDroppedWithoutShutdown ShutdownDrains
 CHECK_DEADLOCK FALSE
 CONSTANTS
   Remotes = {"r1", "r2"}
